@@ -47,6 +47,19 @@ TPeer ==
   /\ Matches(node'[Ev.n], Ev.post)
   /\ Book /\ UNCHANGED used
 
+\* a message signed by a Byzantine validator (or a part of the adversary's block): whatever it is, the adversary may send it;
+\* once an honest node has taken it in, it is visible to the others (they gossip what they hold)
+TByz ==
+  /\ Ev.a = "Byz"
+  /\ LET n == Ev.n  m == Ev.m
+         new == IF Applicable(n, m) THEN HandleMsg(n, node[n], m) ELSE node[n] IN
+       /\ node' = [node EXCEPT ![n] = new]
+       /\ net' = IF new # node[n] THEN net \cup {m} ELSE net
+       /\ act' = <<"Byz", n, m>>
+       /\ UNCHANGED <<byzUsed, crashes>>
+  /\ Matches(node'[Ev.n], Ev.post)
+  /\ Book /\ UNCHANGED used
+
 \* the real ticker fired and its tock was handled (stale tocks are dropped before the handler and not logged)
 TTimeout ==
   /\ Ev.a = "Timeout"
@@ -59,7 +72,7 @@ TTimeout ==
        /\ Matches(node'[n], Ev.post)
   /\ Book
 
-TraceNext == l <= Len(Trace) /\ (TInternal \/ TPeer \/ TTimeout)
+TraceNext == l <= Len(Trace) /\ (TInternal \/ TPeer \/ TByz \/ TTimeout)
 TraceSpec == TraceInit /\ [][TraceNext]_tvars
 
 \* the whole trace was consumed: one state per record plus the initial state
